@@ -102,7 +102,7 @@ pub fn unit_len(fam: u8, deg: u8, level: u8) -> usize {
     }
 }
 
-static TOLS: &[f64] = &[0.0, f64::EPSILON, 1e-9, 1.0, 1e300, 1e-3, 0.5];
+static TOLS: &[f64] = &[0.0, f64::EPSILON, 1e-9, 1.0, 1e300, 1e-3, 0.5, 0.25, 0.7, 0.01, 0.3, 2.0];
 
 fn perturb(v: f64, kind: u8, f: u8, eps: f64, maxrel: f64) -> f64 {
     let fac = [0.5, 0.999, 1.0, 1.001, 2.0, 1e6, 0.25, 3.9][f as usize % 8];
@@ -129,7 +129,7 @@ impl Prop for C17 {
         "C17"
     }
     fn rule(&self) -> String {
-        "case = (type: {Poly0..8, Log<PolyK>, IntOfLog<PolyK>, IntOfLogPoly4} bare / in a Segment / in a Piecewise of 0..=5 pieces, or PolyN of length 0..=10; value a from non-NaN numbers (moderate, full range, ±inf rarely); b = a with 0, 1 or several numbers perturbed by an amount chosen relative to the tolerance (x0.25, 0.5, 0.999, exactly 1, 1.001, 2, 3.9, 1e6; either sign; absolute or relative), sign flips, ±0 swaps, one-ulp nudges, infinities, or an independent value, or a different length (PolyN / Piecewise); eps, max_relative from {0, f64::EPSILON, 1e-9, 1e-3, 0.5, 1, 1e300}). Oracle: flatten both values by direct field access; expected = same length AND for every pair f64::abs_diff_eq (resp. f64::relative_eq) with the same tolerances. Checked for abs_diff_eq and relative_eq in both argument orders, for the macro forms with default tolerances, plus reflexivity on finite values, implication from ==, and default tolerances equal to the f64 defaults. Non-trivial: same length and exactly one number differs by an amount within a factor 4 of the governing tolerance.".into()
+        "case = (type: {Poly0..8, Log<PolyK>, IntOfLog<PolyK>, IntOfLogPoly4} bare / in a Segment / in a Piecewise of 0..=5 pieces, or PolyN of length 0..=10; value a from non-NaN numbers (moderate, full range, ±inf rarely); b = a with 0, 1 or several numbers perturbed by an amount chosen relative to the tolerance (x0.25, 0.5, 0.999, exactly 1, 1.001, 2, 3.9, 1e6; either sign; absolute or relative), sign flips, ±0 swaps, one-ulp nudges, infinities, or an independent value, or a different length (PolyN / Piecewise); eps, max_relative from {0, f64::EPSILON, 1e-9, 1e-3, 0.01, 0.25, 0.3, 0.5, 0.7, 1, 2, 1e300}). Oracle: flatten both values by direct field access; expected = same length AND for every pair f64::abs_diff_eq (resp. f64::relative_eq) with the same tolerances. Checked for abs_diff_eq and relative_eq in both argument orders, for the macro forms with default tolerances, plus reflexivity on finite values, implication from ==, and default tolerances equal to the f64 defaults. Non-trivial: same length and exactly one number differs by an amount within a factor 4 of the governing tolerance.".into()
     }
     fn assumptions(&self) -> Vec<String> {
         vec!["the f64 impls of the approx crate are the trusted primitive".into()]
